@@ -281,6 +281,31 @@ mut("c09-invertcircular-guard", "C09", "region.go", "if ss[0][0] == 0 || ss[len(
 mut("c09-silent-minimize-rewrite", "C09", "region.go", "\t\tif l[1] < r[0] {\n\t\t\ti++\n\t\t} else {", "\t\tif r[0] > l[1] {\n\t\t\ti += 1\n\t\t} else {", silent=True)
 mut("c15-minimize-merge-no-max", "C15", "region.go", "ss[i] = Segment{Min(l[0], r[0]), Max(l[1], r[1])}", "ss[i] = Segment{l[0], r[1]}", ["MINIMIZE|gts.Minimize"])
 
+# ---------------------------------------------------------------- C07 (traps)
+mut("c07-revert-field-indent", "C07", "seqio/genbank_subparsers.go",
+    "\t\tif indentLength < 0 {\n\t\t\tstate.Clear()\n\t\t\twhat := fmt.Sprintf(\"uneven indent in field `%s`\", name)\n\t\t\treturn pars.NewError(what, state.Position())\n\t\t}\n\t\tindentParser", "\t\tindentParser", ["NN|seqio.genbankFieldNameParser"])
+mut("c07-revert-dblink", "C07", "seqio/genbank_subparsers.go",
+    "\t\t\tif len(s) < i+2 {\n\t\t\t\treturn pars.NewError(\"expected value after `:`\", state.Position())\n\t\t\t}\n", "", ["IDX|seqio.genbankDBLinkPairParser"])
+mut("c07-dblink-guard-off-by-one", "C07", "seqio/genbank_subparsers.go", "if len(s) < i+2 {", "if len(s) < i+1 {", ["IDX|seqio.genbankDBLinkPairParser"])
+mut("c07-revert-reference-pad", "C07", "seqio/genbank_subparsers.go", "\t\tif paddingLength < 0 {\n\t\t\tpaddingLength = 0\n\t\t}\n", "", ["NN|seqio.genbankReferenceParser"])
+mut("c07-revert-slow-origin", "C07", "seqio/genbank_subparsers.go",
+    "\t\t\t\t\tif len(q) <= extent {\n\t\t\t\t\t\tpos.Byte += extent\n\t\t\t\t\t\treturn pars.NewError(\"unexpected end of line\", pos)\n\t\t\t\t\t}\n\t\t\t\t\tif !isBaseCharacter(q[extent]) {", "\t\t\t\t\tif !isBaseCharacter(q[extent]) {", ["IDX|seqio.slowGenBankOriginParser"])
+mut("c07-revert-negative-length", "C07", "seqio/genbank.go", "\tif length < 0 {\n\t\treturn pars.NewError(\"negative sequence length\", state.Position())\n\t}\n", "", ["NN|seqio."])
+mut("c07-definition-empty", "C07", "seqio/genbank_subparsers.go", "if len(p) != 0 && p[len(p)-1] != '.' {", "if p[len(p)-1] != '.' {", ["IDX|seqio.genbankDefinitionParser"])
+mut("c07-toqualifier-no-case", "C07", "feature.go",
+    "\tswitch i := strings.IndexByte(s, '='); i {\n\tcase -1:\n\t\treturn Qualifier(s, \"\")\n\tdefault:\n\t\treturn Qualifier(s[:i], s[i+1:])\n\t}",
+    "\ti := strings.IndexByte(s, '=')\n\treturn Qualifier(s[:i], s[i+1:])", ["IDX|gts.toQualifier"])
+mut("c07-asdate-no-len-check", "C07", "seqio/date.go", "\tif len(parts) != 3 {\n\t\treturn Date{}, errors.New(\"expected 3 fields in date\")\n\t}\n", "\t_ = errors.New\n", ["IDX|seqio.AsDate"])
+mut("c07-searchstring-no-empty", "C07", "seqio/insdc.go", "\tif len(ss) == 0 {\n\t\treturn false\n\t}\n\tn := len(ss) / 2", "\tn := len(ss) / 2", ["IDX|seqio.searchString"])
+mut("c07-aslocation-no-err", "C07", "location.go", "\tresult, err := ParseLocation.Parse(pars.FromString(s))\n\tif err != nil {\n\t\treturn nil, err\n\t}\n\treturn result.Value.(Location), nil", "\tresult, _ := ParseLocation.Parse(pars.FromString(s))\n\treturn result.Value.(Location), nil", ["RES|gts.AsLocation"])
+mut("c07-request-unchecked", "C07", "seqio/genbank_subparsers.go",
+    "\t\t\tif err := state.Request(toOriginLength(length)); err != nil {\n\t\t\t\treturn pars.NewError(\"not enough bytes in state\", state.Position())\n\t\t\t}\n", "\t\t\tstate.Request(toOriginLength(length))\n", ["REQ-ERR|seqio.makeGenbankOriginParser"])
+mut("c07-keyline-repeat", "C07", "seqio/insdc.go",
+    "\t\tfor i := 0; i < depth-len(prefix+key); i++ {\n\t\t\tc, err := pars.Next(state)\n\t\t\tif err != nil {\n\t\t\t\treturn err\n\t\t\t}\n\t\t\tif c != ' ' {\n\t\t\t\treturn pars.NewError(\"wanted indent\", state.Position())\n\t\t\t}\n\t\t\tstate.Advance()\n\t\t}\n",
+    "\t\tif err := pars.String(strings.Repeat(\" \", depth-len(prefix+key)))(state, pars.Void); err != nil {\n\t\t\treturn pars.NewError(\"wanted indent\", state.Position())\n\t\t}\n", ["NN|seqio.featureKeylineParser"])
+mut("c07-double-advance", "C07", "location.go", "\tif c != '^' {\n\t\terr := pars.NewError(\"expected `^`\", state.Position())\n\t\tstate.Pop()\n\t\treturn err\n\t}\n\tstate.Advance()\n", "\tif c != '^' {\n\t\terr := pars.NewError(\"expected `^`\", state.Position())\n\t\tstate.Pop()\n\t\treturn err\n\t}\n\tstate.Advance()\n\tstate.Advance()\n", ["REQ-ADV|gts.parseBetween"])
+mut("c07-silent-guard-rewrite", "C07", "seqio/genbank_subparsers.go", "if len(s) < i+2 {", "if i+2 > len(s) {", silent=True)
+
 if __name__ == "__main__":
     here = os.path.dirname(os.path.abspath(__file__))
     ids = [m["id"] for m in M]
